@@ -19,7 +19,7 @@ enum Ver {
 enum L {
     Set { key: &'static str, val: &'static str },
     SetSafe { key: &'static str, ver: Ver },
-    Inc { key: &'static str },
+    Inc { key: &'static str, by: i32 },
     Remove { key: &'static str },
     Snapshot,
 }
@@ -39,7 +39,10 @@ impl C02 {
             for ver in [Ver::Minus1, Ver::CurM1, Ver::Cur, Ver::CurP1, Ver::Big] {
                 l.push(L::SetSafe { key: k, ver });
             }
-            l.push(L::Inc { key: k });
+            l.push(L::Inc { key: k, by: 1 });
+            // the version must grow whatever the amount is
+            l.push(L::Inc { key: k, by: -2 });
+            l.push(L::Inc { key: k, by: 0 });
             l.push(L::Remove { key: k });
         }
         l.push(L::Snapshot);
@@ -102,7 +105,7 @@ impl SeqModel for C02 {
             }
             L::Set { .. } | L::SetSafe { .. } | L::Inc { .. } => {
                 let key = match &l {
-                    L::Set { key, .. } | L::SetSafe { key, .. } | L::Inc { key } => *key,
+                    L::Set { key, .. } | L::SetSafe { key, .. } | L::Inc { key, .. } => *key,
                     _ => unreachable!(),
                 };
                 let before = match reported(w, key) {
@@ -133,11 +136,12 @@ impl SeqModel for C02 {
                         };
                         (format!("set-safe {} {} s{}", key, vnum, w.steps), exp, Some(format!("s{}", w.steps)))
                     }
-                    L::Inc { .. } => {
+                    L::Inc { by, .. } => {
                         let cur = w.model.get(key).cloned().unwrap_or("0".into());
-                        match parse_int(&cur).and_then(|c| c.checked_add(1)) {
-                            Some(n) => (format!("increment {}", key), Some(true), Some(n.to_string())),
-                            None => (format!("increment {}", key), Some(false), None),
+                        let line = if *by == 1 { format!("increment {}", key) } else { format!("increment {} {}", key, by) };
+                        match parse_int(&cur).and_then(|c| c.checked_add(*by)) {
+                            Some(n) => (line, Some(true), Some(n.to_string())),
+                            None => (line, Some(false), None),
                         }
                     }
                     _ => unreachable!(),
@@ -209,7 +213,7 @@ pub fn run_seq(run: &mut Run) {
     };
     let res = explore(&m, &cfg);
     super::seq_report(run, &m, &res, &cfg);
-    let deep = ["Set { key: \"k\", val: \"1\" }", "SetSafe { key: \"k\", ver: CurM1 }", "SetSafe { key: \"k\", ver: Cur }", "Inc { key: \"k\" }", "Remove { key: \"k\" }", "Snapshot"];
+    let deep = ["Set { key: \"k\", val: \"1\" }", "SetSafe { key: \"k\", ver: CurM1 }", "SetSafe { key: \"k\", ver: Cur }", "Inc { key: \"k\", by: 1 }", "Inc { key: \"k\", by: -2 }", "Remove { key: \"k\" }", "Snapshot"];
     super::deep_pass(run, &m, &deep, if quick { 6 } else { 8 }, if quick { 30 } else { 900 });
     run.cov("seq_distinct_outcomes", serde_json::json!(m.outcomes.lock().unwrap().iter().cloned().collect::<Vec<_>>()));
     run.assume("set-safe with version -1 is the unversioned sentinel (treated as a plain write)");
